@@ -232,7 +232,12 @@ def find_chains(func: Func, adts: ADTs, min_cases: int = 1) -> List[Chain]:
 def main_chain(func: Func, adts: ADTs, subject: Optional[str] = None, adt: Optional[str] = None, sum_name: Optional[str] = None) -> Optional[Chain]:
     """The chain with the most cases (optionally restricted to a subject / ADT sum)."""
     best = None
-    for ch in find_chains(func, adts):
+    chains = find_chains(func, adts)
+    if subject is not None and not any(ch.subject == subject for ch in chains):
+        # the subject's NAME is a hint, not an anchor: if no chain tests a variable of that name (it
+        # was renamed) take the largest chain over the requested ADT sum, whatever its variable is called
+        subject = None
+    for ch in chains:
         if subject is not None and ch.subject != subject:
             continue
         if adt is not None:
@@ -254,3 +259,18 @@ def mentioned_ctors(func: Func, adts: ADTs, subject: Optional[str] = None) -> Se
             if t is not None and (subject is None or t.subject == subject):
                 out |= t.ctors
     return out
+
+
+def resolve_subject(func: Func, adts: ADTs, subject: str, adt_key: str, sum_name: str) -> str:
+    """The variable a function dispatches on over `adt_key.sum_name`.  `subject` is the name it had
+    when the rule was written — a hint: if no chain tests that name any more (the local was renamed)
+    the variable of the largest chain over the requested sum is returned."""
+    chains = find_chains(func, adts)
+    if any(ch.subject == subject for ch in chains):
+        return subject
+    best = None
+    for ch in chains:
+        if any(a == adt_key and adts[a].ctors[c].sum == sum_name for a, c in ch.covered()):
+            if best is None or len(ch.cases) > len(best.cases):
+                best = ch
+    return best.subject if best is not None else subject
